@@ -16,6 +16,7 @@ import (
 	"github.com/ExocoreNetwork/exocore/utils"
 	assetstypes "github.com/ExocoreNetwork/exocore/x/assets/types"
 	delegationtypes "github.com/ExocoreNetwork/exocore/x/delegation/types"
+	epochstypes "github.com/ExocoreNetwork/exocore/x/epochs/types"
 )
 
 // RestakingStores are the module stores whose bytes the atomicity / export monitors compare.
@@ -266,13 +267,25 @@ func (c *Chain) ParseLedger(ctx sdk.Context, raw Raw) *Ledger {
 type Snap struct {
 	Raw    Raw
 	Ledger *Ledger
+	Op     *OpState
+	Dog    *DogState
+	Epochs map[string]epochstypes.EpochInfo
 	Height int64
 }
 
-var LedgerStores = []string{"assets", "delegation", "operator", "dogfood", "avs", "oracle", "reward", "exoslash"}
+var LedgerStores = []string{"assets", "delegation", "operator", "dogfood", "avs", "oracle", "reward", "exoslash", "epochs"}
 
 func (c *Chain) Snapshot() *Snap {
 	ctx := c.Ctx()
 	raw := c.DumpStores(ctx, LedgerStores)
-	return &Snap{Raw: raw, Ledger: c.ParseLedger(ctx, raw), Height: c.Height()}
+	s := &Snap{Raw: raw, Ledger: c.ParseLedger(ctx, raw), Op: ParseOpState(raw), Dog: ParseDogState(raw), Height: c.Height(), Epochs: map[string]epochstypes.EpochInfo{}}
+	for k, v := range raw["epochs"] {
+		if len(k) > 0 && k[0] == epochstypes.KeyPrefixEpoch[0] {
+			var e epochstypes.EpochInfo
+			if proto.Unmarshal(v, &e) == nil {
+				s.Epochs[k[1:]] = e
+			}
+		}
+	}
+	return s
 }
